@@ -18,6 +18,101 @@ fn key(o: &AsmOutcome) -> String {
     }
 }
 
+/// Literal letters glued behind a parameter (`wt {n}ms`, `lq {x}b`, `sf {a}x{b}`): the one place where the
+/// look-ahead character of a pattern is a letter, so its case handling matters. These rules live outside the
+/// structural model (the oracle here is purely metamorphic): a block of rules plus instruction lines appended
+/// to the base text and, re-cased / re-spaced / re-ordered, to every variant.
+pub struct Glued {
+    rules: Vec<String>,
+    /// (mnemonic, operand text): letters of the operand are suffix letters or hex digits, never symbol names
+    lines: Vec<(String, String)>,
+}
+
+pub fn gen_glued(t: &mut Tape) -> Option<Glued> {
+    if !t.chance(1, 3) {
+        return None;
+    }
+    let mut rules = Vec::new();
+    let mut lines = Vec::new();
+    let n = t.urange(1, 3);
+    for _ in 0..n {
+        match t.draw(3) {
+            0 => {
+                rules.push("wt {n}ms => 0x51 @ n`8".to_string());
+                if t.flip() {
+                    rules.push("wt {n} => 0x52 @ n`8".to_string());
+                }
+                lines.push(("wt".to_string(), format!("{}ms", *t.pick(&["10", "0x1a", "7", "255", "0b101"]))));
+            }
+            1 => {
+                rules.push("lq {x}b => 0x54 @ x`8".to_string());
+                if t.flip() {
+                    rules.push("lq {x} => 0x55 @ x`8".to_string());
+                }
+                lines.push(("lq".to_string(), format!("{}b", *t.pick(&["7", "0x1", "0x1b", "12", "0xa"]))));
+            }
+            _ => {
+                rules.push("sf {a}x{b} => 0x53 @ a`4 @ b`4".to_string());
+                lines.push(("sf".to_string(), format!("{}x{}", t.draw(10), t.draw(10))));
+            }
+        }
+    }
+    rules.dedup();
+    Some(Glued { rules, lines })
+}
+
+impl Glued {
+    pub fn render(&self, t: &mut Tape, v: &Variant) -> String {
+        let mut rules = self.rules.clone();
+        if v.permute_rules {
+            for i in (1..rules.len()).rev() {
+                let j = t.below(i + 1);
+                rules.swap(i, j);
+            }
+        }
+        let mut s = String::from("#ruledef\n{\n");
+        for r in &rules {
+            s.push_str("    ");
+            s.push_str(r);
+            s.push('\n');
+        }
+        s.push_str("}\n");
+        for (m, op) in &self.lines {
+            let recase = |t: &mut Tape, w: &str| -> String {
+                // the `x` of a 0x / the `b` of a 0b prefix keeps its case (a number prefix, not a literal letter)
+                let cs: Vec<char> = w.chars().collect();
+                cs.iter()
+                    .enumerate()
+                    .map(|(i, c)| {
+                        let prefix = i == 1 && cs[0] == '0' && (*c == 'x' || *c == 'b');
+                        if v.recase && !prefix && t.flip() {
+                            c.to_ascii_uppercase()
+                        } else {
+                            *c
+                        }
+                    })
+                    .collect()
+            };
+            s.push_str(&recase(t, m));
+            s.push(' ');
+            if v.spacing {
+                for _ in 0..t.draw(3) {
+                    s.push(if t.chance(1, 3) { '\t' } else { ' ' });
+                }
+            }
+            if v.comments && t.flip() {
+                s.push_str(";* c *; ");
+            }
+            s.push_str(&recase(t, op));
+            if v.comments && t.flip() {
+                s.push_str(" ; trailing");
+            }
+            s.push('\n');
+        }
+        s
+    }
+}
+
 impl Property for C07 {
     fn id(&self) -> &'static str {
         "C07"
@@ -26,7 +121,8 @@ impl Property for C07 {
         "each case = a size-static generated instruction set and program (as in C01, incl. constants named like registers = literal-versus-expression overlaps, and injected faults) rendered \
          as a base text and 6 variants: (1) random re-casing of mnemonics and of operands that every surviving rule reads literally, (2) extra blanks/tabs at token boundaries (after the \
          mnemonic, around commas, inside [ ] ( ) and after #; blanks are only added, never removed, never inside a word), (3) block comments at those boundaries and trailing ; comments, \
-         (4) rules shuffled and re-partitioned into 1-4 named/unnamed blocks, (5) labels consistently renamed, (6) all of these together. Metamorphic oracle: every variant has the same \
+         (4) rules shuffled and re-partitioned into 1-4 named/unnamed blocks, (5) labels consistently renamed, (6) all of these together. One case in three additionally carries a block of rules with literal letters glued behind a parameter \
+         (`wt {n}ms`, `lq {x}b` beside `lq {x}`, `sf {a}x{b}`) and lines using them (`wt 10ms`, `lq 0x1b`, `sf 3x4`), re-cased / re-spaced / commented / re-ordered in the variants. Metamorphic oracle: every variant has the same \
          success/failure as the base and, on success, identical output bits. Non-trivial = the program has an instruction with >= 2 syntactic matches before the literal-count filter or \
          >= 2 surviving rules, and the base assembles; distinct by hash of the base text."
             .to_string()
@@ -45,7 +141,12 @@ impl Property for C07 {
     }
     fn run(&self, t: &mut Tape, ctx: &mut CaseCtx) -> Verdict {
         let (prog, _info) = crate::props::c01::gen_case(t, 18, true, true);
-        let (base, _) = render(&prog);
+        let (mut base, _) = render(&prog);
+        let glued = gen_glued(t);
+        if let Some(g) = &glued {
+            base.push_str(&g.render(t, &Variant::default()));
+            ctx.label("glued-suffix-rules");
+        }
         ctx.set_hash_str(&base);
         let b = sut::assemble_src(&base, &Opts::default());
         ctx.evals += 1;
@@ -56,6 +157,9 @@ impl Property for C07 {
         });
         ctx.nontrivial = b.ok().is_some() && (multi || crate::props::c01::isa_has_overlap(&prog.isa));
         ctx.label(if b.ok().is_some() { "base:ok" } else { "base:error" });
+        if glued.is_some() && b.ok().is_some() {
+            ctx.label("glued-suffix-rules:base-ok");
+        }
         ctx.render(|| json!({"base": base}));
         let variants = [
             ("recase", Variant { recase: true, ..Default::default() }),
@@ -66,7 +170,10 @@ impl Property for C07 {
             ("all", Variant { recase: true, spacing: true, comments: true, permute_rules: true, rename_labels: true }),
         ];
         for (name, v) in variants {
-            let text = render_variant(t, &v, &prog);
+            let mut text = render_variant(t, &v, &prog);
+            if let Some(g) = &glued {
+                text.push_str(&g.render(t, &v));
+            }
             let o = sut::assemble_src(&text, &Opts::default());
             ctx.evals += 1;
             let k = key(&o);
